@@ -2,7 +2,10 @@ module verifharness
 
 go 1.23.0
 
-require github.com/go-critic/go-critic v0.0.0
+require (
+	github.com/go-critic/go-critic v0.0.0
+	golang.org/x/tools v0.32.0
+)
 
 require (
 	github.com/go-toolsmith/astcast v1.1.0 // indirect
@@ -18,7 +21,8 @@ require (
 	github.com/quasilyte/regex/syntax v0.0.0-20210819130434-b3f0c404a727 // indirect
 	github.com/quasilyte/stdinfo v0.0.0-20220114132959-f7386bf02567 // indirect
 	golang.org/x/exp/typeparams v0.0.0-20240213143201-ec583247a57a // indirect
-	golang.org/x/tools v0.32.0 // indirect
+	golang.org/x/mod v0.24.0 // indirect
+	golang.org/x/sync v0.13.0 // indirect
 )
 
 replace github.com/go-critic/go-critic => /repo
